@@ -197,7 +197,8 @@ static const char* const EK_NAMES[E_NKINDS] = {
     "ev.wait", "ctr", "choose", "plain"};
 static const char* const DK_NAMES[D_NKINDS] = {"sched", "read", "signal", "choose",
                                               "spurious_wakeup", "time_jump",
-                                              "spurious_trylock", "throw", "plain_preempt"};
+                                              "spurious_trylock", "throw", "plain_preempt",
+                                              "alloc_fail"};
 static const char* const ST_NAMES[gsim_ctl::N_STRATEGIES] = {"walk", "pct", "few",
                                                              "stall", "rr"};
 
@@ -1327,6 +1328,7 @@ static int fault_to_dkind(Fault f)
         case F_SPURIOUS_TRYLOCK: return D_SPURIOUS_TRYLOCK;
         case F_STALE_READ: return D_READ;
         case F_THROW: return D_THROW;
+        case F_ALLOC_FAIL: return D_ALLOC_FAIL;
         default: return D_THROW;
     }
 }
